@@ -25,8 +25,16 @@ Proof. intros s Hc. split; [intros w; now apply returned_kind|now apply returned
 
 (* nothing is left behind -- whether the request returns, raises or is cancelled at any moment, in both modes:
    no non-returned connection in the registry (CONNECTING or open), no ticket / CannotConnect waiter, no attempt task *)
-Theorem C11_residue_free : forall s, residue_free (result s) = true.
-Proof. exact residue_free_all. Qed.
+Theorem C11_residue_free_partial : forall s,
+  (RACE_CANCEL_COVERS_WINNER_PATH = true \/ md s = Fallback \/ ctie s <> Some CancelAwaitingLoser) ->
+  residue_free (result s) = true.
+Proof. exact residue_free_partial. Qed.
+
+(* finding C11-N4: race mode, the request is cancelled while it awaits the cancelled loser: the winner's connection stays
+   open and registered with no owner *)
+Theorem C11_residue_free_refuted :
+  exists s x, md s = Race /\ cancel s = Some x /\ out (result s) = OCancelled /\ r_open (result s) = true.
+Proof. exact residue_free_refuted. Qed.
 
 (* the request ends within lookup delay + lookup timeout + connect timeout + indirect timeout *)
 Theorem C11_terminates : forall s,
@@ -79,12 +87,12 @@ Proof.
 Qed.
 
 Example C11_nonvacuous :
-  let s1 := mkS Fallback AReply 1 DRefused 2 IPierce 3 None BothDone in
-  let s2 := mkS Race AReply 1 DOk 2 ICannot 5 None BothDone in
-  let s3 := mkS Fallback ANoReply 0 DOk 0 IPierce 4 None BothDone in          (* the former F26 witness *)
-  let s4 := mkS Race AGiven 0 DOk 2 INothing 0 None BothDone in               (* the former F16 witness *)
-  let s5 := mkS Race AGiven 0 DOk 4 IPierce 4 None BothDone in                (* tie, both done *)
-  let s6 := mkS Race AGiven 0 DOk 5 INothing 0 (Some 3) BothDone in           (* the former C11-N1 witness *)
+  let s1 := mkS Fallback AReply 1 DRefused 2 IPierce 3 None BothDone None in
+  let s2 := mkS Race AReply 1 DOk 2 ICannot 5 None BothDone None in
+  let s3 := mkS Fallback ANoReply 0 DOk 0 IPierce 4 None BothDone None in          (* the former F26 witness *)
+  let s4 := mkS Race AGiven 0 DOk 2 INothing 0 None BothDone None in               (* the former F16 witness *)
+  let s5 := mkS Race AGiven 0 DOk 4 IPierce 4 None BothDone None in                (* tie, both done *)
+  let s6 := mkS Race AGiven 0 DOk 5 INothing 0 (Some 3) BothDone None in           (* the former C11-N1 witness *)
   cancel s1 = None /\ delays_ok s1 /\ out (result s1) = ORet WIndirect /\ at_time (result s1) = Some 6 /\
   out (result s2) = ORet WDirect /\ at_time (result s2) = Some 3 /\
   out (result s3) = ORet WIndirect /\ at_time (result s3) = Some 14 /\
